@@ -12,6 +12,19 @@ from .common import FIELD, MESH, REGION
 from .c01 import each, _single_return
 
 FLOOR = 45
+ANCHORS = [
+    'tools.tools.topological_charge_density',
+    'tools.tools.topological_charge',
+    'tools.tools.emergent_magnetic_field',
+    'tools.tools.neighbouring_cell_angle',
+    'tools.tools.count_bps',
+    'tools.tools._demag_tensor_field_based',
+    'tools.tools.demag_tensor',
+    'tools.tools.demag_field',
+    'tools.tools._N_element',
+    'tools.tools._N',
+    'util.util.bergluescher_angle',
+]   # functions whose code the property is anchored in (mutation analysis, evidence)
 T = "tools.tools."
 PT = {"field": FIELD, "mesh": MESH, "m": FIELD, "tensor": FIELD}
 
